@@ -5,7 +5,7 @@
 # when the patch is applied to /repo itself (undone straight afterwards).
 export GOFLAGS=-mod=mod GOPROXY=off GOSUMDB=off GOTOOLCHAIN=local CGO_ENABLED=0
 unset GOWORK
-ID=$1; PROP=$2; OUT=$3; WT=${4:-/tmp/seed2/$PROP}
+ID=$1; PROP=$2; OUT=$3; WT=${4:-/tmp/seed3/$PROP}
 set -u
 cd "$WT" || exit 3
 git checkout -q -- . ; rm -f zz_seeded_test.go
